@@ -1,6 +1,7 @@
 import Mimium.Proofs.Pretty
 import Mimium.Proofs.NewlineRule
 import Mimium.Proofs.CstPrintRender
+import Mimium.Proofs.CstPrintLeading
 import Mimium.Model.CstGrammar
 /-!
 # C14 — The formatter never changes a program, loses no comment, and is idempotent
@@ -33,9 +34,12 @@ in `Model/Pretty.lean` and tied to the crate by exact comparison on random docum
   order; `Model/CstPrintSpec.lean`) the text leaves of the document are, after `norm` (commas erased: the printer re-creates them; the
   `{` of a block is a literal; added spaces are layout), exactly the tokens of the tree in order, each between its leading and trailing
   comments.  `C14_format_rendered_content`, `C14_format_width_independent_content`: the rendered text has these leaves at every width and
-  indent.  `C14_no_comment_lost`, `C14_comments_in_order`, `C14_token_sequence_preserved_partial` are the corollaries.  Outside the
-  class the printer does lose content: `C14_one_tuple_comma_comment_lost`, `C14_paren_type_in_tuple_type_dropped` prove it on the model
-  for two inputs that are replayed on the real formatter in every run (findings in `known_findings.jsonl`).  NOT proved: that every
+  indent.  `C14_no_comment_lost`, `C14_comments_in_order`, `C14_token_sequence_preserved_partial` are the corollaries.  The
+  witnesses of the three repaired findings of the printer are in the class now: `C14_one_tuple_comma_comment_kept`,
+  `C14_paren_type_in_tuple_type_kept`, `C14_first_line_comment_once` (`decide +kernel` on the real token kinds; the same texts are in
+  `corpus/C14/` and run first in every check).  `C14_file_leading_comments_are_the_unattached`: the comment block `pretty_print` writes
+  in front of the document is, for every token list, exactly the set of comments `preparse` attaches to no token (nothing is printed
+  twice, nothing is printed in neither place).  NOT proved: that every
   error-free parse tree without these shapes is in `keepsAll` (evaluated by the driver on every text of the run instead), and the
   re-tokenisation of the output (no two printed tokens merge) — hence `_partial`.
 
@@ -269,7 +273,37 @@ theorem C14_comments_in_order_parsed (ks : List Kind) (widths : List Nat) (g : G
   rw [hleaves] at this
   exact this
 
-/-! ### Non-vacuity and the two defects, on the token kinds of real program texts -/
+/-- THE FILE-LEADING BLOCK (every token list the tokenizer can produce: `body ++ [Eof]`, no other `Eof`): the comments that
+`extract_file_leading_comments` writes in front of the rendered document are EXACTLY the comments that `preparse` attaches to no token
+(attach count 0 in the two trivia maps: neither leading nor trailing trivia of anything, so `cst_to_doc` cannot print them).  Hence no
+comment is printed both in the block and with a token (the former finding C14-first-line-comment, for every input), and — with
+`C14_no_comment_lost` for the attached ones — none is printed in neither place. -/
+theorem C14_file_leading_comments_are_the_unattached (body : List Kind) (h : Kind.Eof ∉ body) (x : Nat) :
+    x ∈ fileLeadingComments 0 (body ++ [Kind.Eof]) ↔
+      (x < (body ++ [Kind.Eof]).length ∧ isCommentKind ((body ++ [Kind.Eof]).getD x Kind.Eof) = true ∧
+        (Preparse.preparse (body ++ [Kind.Eof])).attachCount x = 0) := by
+  have hgo := fileLeadingGo_eq body 0 [] h
+  have hmem : x ∈ fileLeadingComments 0 (body ++ [Kind.Eof]) ↔ x ∈ dropCom 0 (body ++ [Kind.Eof]) := by
+    unfold fileLeadingComments; rw [hgo]; simp
+  rw [hmem, mem_dropCom, Preparse.mem_dropIdx]
+  simp only [Nat.zero_le, true_and, Nat.sub_zero]
+  have hacc := Preparse.attach_count (body ++ [Kind.Eof]) x
+  constructor
+  · intro ⟨hd, hc⟩
+    have hx : x < (body ++ [Kind.Eof]).length := by
+      simp only [Preparse.dropped, Bool.and_eq_true, decide_eq_true_eq] at hd; exact hd.1.1.1
+    have ht := (comment_facts hc).1
+    simp only [hd, if_true, hx, ht, and_self] at hacc
+    exact ⟨hx, hc, by omega⟩
+  · intro ⟨hx, hc, h0⟩
+    have ht := (comment_facts hc).1
+    refine ⟨?_, hc⟩
+    simp only [hx, ht, and_self, if_true, h0, Nat.zero_add] at hacc
+    by_cases hd : Preparse.dropped (body ++ [Kind.Eof]) x = true
+    · exact hd
+    · simp only [hd, Bool.false_eq_true, if_false] at hacc; omega
+
+/-! ### Non-vacuity and the witnesses of the repaired findings, on the token kinds of real program texts -/
 
 /-- `fn f(x, y){ // c⏎ x + y /* k */ }` -/
 def exKinds : List Kind := [.Function, .Whitespace, .Ident, .ParenBegin, .Ident, .Comma, .Whitespace, .Ident, .ParenEnd, .BlockBegin,
@@ -290,22 +324,37 @@ example : observe exKinds exWidths =
               [.idx 0, .idx 2, .idx 3, .idx 4, .idx 7, .idx 8, .brace, .idx 11, .idx 14, .idx 16, .idx 18, .idx 20, .idx 22]) := by
   decide +kernel
 
-/-- FINDING C14-one-tuple-comma-comment: `let t = (1, /* c */)` — the comment (token 10) hangs on the comma of a one-element tuple,
-which `print_tuple_expr` skips; the tree is outside `keepsAll` and the comment is not in the document. -/
-theorem C14_one_tuple_comma_comment_lost :
+/-- REPAIRED finding C14-one-tuple-comma-comment: `let t = (1, /* c */)` — the comment (token 10) hangs on the comma of a one-element
+tuple.  `print_tuple_expr` now prints the comma token itself: the tree is in `keepsAll` and the comment is in the document. -/
+theorem C14_one_tuple_comma_comment_kept :
     observe [.Let, .Whitespace, .Ident, .Whitespace, .Assign, .Whitespace, .ParenBegin, .Int, .Comma, .Whitespace, .MultiLineComment,
       .ParenEnd, .Eof] [3, 1, 1, 1, 1, 1, 1, 1, 1, 1, 7, 1, 0] =
-    (0, false, [.idx 0, .idx 2, .idx 4, .idx 6, .idx 7, .idx 11], [.idx 0, .idx 2, .idx 4, .idx 6, .idx 7, .idx 10, .idx 11]) := by
+    (0, true, [.idx 0, .idx 2, .idx 4, .idx 6, .idx 7, .idx 10, .idx 11], [.idx 0, .idx 2, .idx 4, .idx 6, .idx 7, .idx 10, .idx 11]) := by
   decide +kernel
 
-/-- FINDING C14-paren-type-in-tuple-type: `let t:((float),float) = x` — the parentheses of a parenthesised type inside a tuple type
-are direct children of the `TupleType` node; `print_grouped_list` keeps one opening and one closing delimiter, so tokens 4 and 7 (and
-any comment attached to them) are not in the document. -/
-theorem C14_paren_type_in_tuple_type_dropped :
+/-- REPAIRED finding C14-paren-type-in-tuple-type: `let t:((float),float) = x` — the parentheses of a parenthesised type inside a
+tuple type are direct children of the `TupleType` node; `print_grouped_list` now counts the brackets opened inside the list and keeps
+them (tokens 5 and 7) in the item they enclose: the tree is in `keepsAll`, every token but the comma (erased by `norm`) is in the document. -/
+theorem C14_paren_type_in_tuple_type_kept :
     observe [.Let, .Whitespace, .Ident, .Colon, .ParenBegin, .ParenBegin, .FloatType, .ParenEnd, .Comma, .FloatType, .ParenEnd,
       .Whitespace, .Assign, .Whitespace, .Ident, .Eof] [3, 1, 1, 1, 1, 1, 5, 1, 1, 5, 1, 1, 1, 1, 1, 0] =
-    (0, false, [.idx 0, .idx 2, .idx 3, .idx 5, .idx 6, .idx 9, .idx 10, .idx 12, .idx 14],
-               [.idx 0, .idx 2, .idx 3, .idx 4, .idx 5, .idx 6, .idx 7, .idx 9, .idx 10, .idx 12, .idx 14]) := by
+    (0, true, [.idx 0, .idx 2, .idx 3, .idx 4, .idx 5, .idx 6, .idx 7, .idx 9, .idx 10, .idx 12, .idx 14],
+              [.idx 0, .idx 2, .idx 3, .idx 4, .idx 5, .idx 6, .idx 7, .idx 9, .idx 10, .idx 12, .idx 14]) := by
+  decide +kernel
+
+/-- REPAIRED finding C14-first-line-comment: `/* c */ let x = 1` — the comment (token 0) is leading trivia of the first token and is
+printed with it (it is in the document); `extract_file_leading_comments` no longer copies it.  `// a⏎/* b */ let x = 1`: the comment
+of the first line (token 0, attached to no token by the preparser) is the file-leading block, `/* b */` (token 2) is in the document. -/
+theorem C14_first_line_comment_once :
+    (fileLeadingComments 0 [.MultiLineComment, .Whitespace, .Let, .Whitespace, .Ident, .Whitespace, .Assign, .Whitespace, .Int, .Eof] = [] ∧
+     observe [.MultiLineComment, .Whitespace, .Let, .Whitespace, .Ident, .Whitespace, .Assign, .Whitespace, .Int, .Eof]
+       [7, 1, 3, 1, 1, 1, 1, 1, 1, 0] =
+     (0, true, [.idx 0, .idx 2, .idx 4, .idx 6, .idx 8], [.idx 0, .idx 2, .idx 4, .idx 6, .idx 8])) ∧
+    (fileLeadingComments 0 [.SingleLineComment, .LineBreak, .MultiLineComment, .Whitespace, .Let, .Whitespace, .Ident, .Whitespace,
+       .Assign, .Whitespace, .Int, .Eof] = [0] ∧
+     observe [.SingleLineComment, .LineBreak, .MultiLineComment, .Whitespace, .Let, .Whitespace, .Ident, .Whitespace, .Assign,
+       .Whitespace, .Int, .Eof] [4, 1, 7, 1, 3, 1, 1, 1, 1, 1, 1, 0] =
+     (0, true, [.idx 2, .idx 4, .idx 6, .idx 8, .idx 10], [.idx 2, .idx 4, .idx 6, .idx 8, .idx 10])) := by
   decide +kernel
 
 end Mimium.CstPrint
